@@ -66,7 +66,15 @@ func AppendString(buf []byte, s string, delim byte) []byte {
 				if start < i {
 					buf = append(buf, s[start:i]...)
 				}
-				buf = append(buf, `\ufffd`...)
+				if cnt == 1 {
+					// Not UTF-8. Written as a \x escape so that the
+					// parser reads the same byte back.
+					buf = append(buf, `\x`...)
+					buf = append(buf, hex[b>>4])
+					buf = append(buf, hex[b&0x0f])
+				} else {
+					buf = append(buf, `\ufffd`...)
+				}
 				start = i + cnt
 				skip = start
 			default:
